@@ -186,3 +186,39 @@ Theorem C10_donchian_encloses_the_candle :
   ln <= c_low ROps (cur ROps (p c)) /\ c_high ROps (cur ROps (p c)) <= un.
 Proof. exact donchian_encloses_candle. Qed.
 Print Assumptions C10_donchian_encloses_the_candle.
+
+From Hexital Require Import Proofs.SupertrendRatchet.
+(* "Supertrend's trailing bands ratchet": about the faithful _calculate_reading model, for any store and
+   index - while the close stays between the previous candle's stored bands and the previous direction is
+   long (+1), the reading stays long and its trend, the lower band, is not below the previous stored lower
+   band (it only moves up); symmetrically a short (-1) trend's upper band only moves down.  (warmup is the
+   all-None reading returned while the ATR helper has no reading yet.) *)
+Theorem C10_supertrend_long_band_ratchets :
+  forall (I : ind ROps) rec (period : Z) (mult : R) (st st' : store ROps) i v pl pu (pln pun cl : R),
+  i_kind ROps I = @K_SUPERTREND ROps period mult -> calc_reading ROps rec I st i = Ok (v, st') ->
+  prev_reading ROps st (i_name ROps I ++ "_data.lower")%string i = Ok pl -> is_none ROps pl = false -> as_num ROps pl = Ok pln ->
+  prev_reading ROps st (i_name ROps I ++ "_data.upper")%string i = Ok pu -> as_num ROps pu = Ok pun ->
+  rnum ROps st "close"%string i = Ok cl ->
+  prev_reading ROps st (i_name ROps I ++ ".direction")%string i = Ok (@VNum ROps (IZR 1)) ->
+  pln <= cl <= pun ->
+  v = warmup \/
+  exists lower : R, pln <= lower /\
+    v = VDict [("trend"%string, @VNum ROps lower); ("direction"%string, @VNum ROps (IZR 1));
+               ("long"%string, @VNum ROps lower); ("short"%string, VNone)].
+Proof. exact supertrend_long_ratchets. Qed.
+Print Assumptions C10_supertrend_long_band_ratchets.
+
+Theorem C10_supertrend_short_band_ratchets :
+  forall (I : ind ROps) rec (period : Z) (mult : R) (st st' : store ROps) i v pl pu (pln pun cl : R),
+  i_kind ROps I = @K_SUPERTREND ROps period mult -> calc_reading ROps rec I st i = Ok (v, st') ->
+  prev_reading ROps st (i_name ROps I ++ "_data.lower")%string i = Ok pl -> is_none ROps pl = false -> as_num ROps pl = Ok pln ->
+  prev_reading ROps st (i_name ROps I ++ "_data.upper")%string i = Ok pu -> as_num ROps pu = Ok pun ->
+  rnum ROps st "close"%string i = Ok cl ->
+  prev_reading ROps st (i_name ROps I ++ ".direction")%string i = Ok (@VNum ROps (IZR (-1))) ->
+  pln <= cl <= pun ->
+  v = warmup \/
+  exists upper : R, upper <= pun /\
+    v = VDict [("trend"%string, @VNum ROps upper); ("direction"%string, @VNum ROps (IZR (-1)));
+               ("long"%string, VNone); ("short"%string, @VNum ROps upper)].
+Proof. exact supertrend_short_ratchets. Qed.
+Print Assumptions C10_supertrend_short_band_ratchets.
